@@ -255,6 +255,8 @@ static long nC(void) { return (long)(NS + 1) * (NS + 1); }
 static long nD(int tier) { return shape_count(tier); }
 static long nF(int tier) { return tier ? NCHAIN : 0; }
 static long nE(void) { return NS; }
+/* family L: collections of 1200 members (a shallow tree may be long) */
+#define NLARGE 5
 
 static long nG(int tier);
 static void init(int tier) { (void)tier; shape_tables(); }
@@ -262,7 +264,7 @@ static void init(int tier) { (void)tier; shape_tables(); }
 static long count(int tier)
 {
     shape_tables();
-    return nA() + nB() + nC() + nD(tier) + nF(tier) + nE() + nG(tier);
+    return nA() + nB() + nC() + nD(tier) + nF(tier) + nE() + nG(tier) + NLARGE;
 }
 
 /* ------------------------------------------------------------------ */
@@ -849,6 +851,43 @@ static void run(int tier, long idx, vf_result *r)
     } else if ((idx -= nD(tier)) < nF(tier)) {
 	family = "F";
 	model = chain_get(idx);
+    } else if (idx - nF(tier) >= nE() + nG(tier)) {
+	char b[24];
+	idx -= nF(tier) + nE() + nG(tier);
+	family = "L";
+	if (idx == 0 || idx == 3) {
+	    model = pm_new('l');
+	    for (int i = 0; i < 1200; ++i) {
+		snprintf(b, sizeof(b), "e%d", i);
+		*pm_list_insert(model, i) = idx == 3 && (i % 3) ? NULL :
+		    pm_scalar(b);
+	    }
+	} else if (idx == 1) {
+	    pm_node *l = pm_new('l');
+	    model = pm_new('m');
+	    for (int i = 0; i < 1200; ++i) {
+		snprintf(b, sizeof(b), "e%d", i);
+		*pm_list_insert(l, i) = pm_scalar(b);
+	    }
+	    *pm_map_add(model, "items") = l;
+	    *pm_map_add(model, "n") = pm_scalar("1200");
+	} else if (idx == 2) {
+	    model = pm_new('m');
+	    for (int i = 0; i < 1200; ++i) {
+		snprintf(b, sizeof(b), "k%d", i);
+		*pm_map_add(model, b) = pm_scalar(b + 1);
+	    }
+	} else {
+	    model = pm_new('l');
+	    for (int i = 0; i < 40; ++i) {
+		pm_node *l = pm_new('l');
+		for (int j = 0; j < 40; ++j) {
+		    snprintf(b, sizeof(b), "%d.%d", i, j);
+		    *pm_list_insert(l, j) = pm_scalar(b);
+		}
+		*pm_list_insert(model, i) = l;
+	    }
+	}
     } else {
 	idx -= nF(tier);
 	if (idx < nE())
